@@ -23,6 +23,11 @@ func vs_visited(n int, k any) bool { return false }
 func vs_done(n int) int { return 0 }
 // vs_same(a, b): the two slices are the same view (same array, offset and length).
 func vs_same[T any](a, b []T) bool { return len(a) == len(b) && (len(a) == 0 || &a[0] == &b[0]) }
+// call history of the function a clause belongs to: whether it called callee (by name), and the
+// arguments / results of its last call to it.
+func vs_called(callee string) bool { return false }
+func vs_callResult[T any](callee string, i int) T { var z T; return z }
+func vs_callArg[T any](callee string, i int) T { var z T; return z }
 // vs_has(m, k): k is a key of m.
 func vs_has[K comparable, V any](m map[K]V, k K) bool { _, ok := m[k]; return ok }
 `
